@@ -2,58 +2,30 @@
 // Solver counter-example(s) produced by Kani's concrete playback; replay with
 //   ./check C01 --replay /verif/replay/cases/c01__q__rs0_n9_len513.rs
 
-// failed check (assertion): assertion failed: r.rank(p) == exp
+// failed check (assertion): assertion failed: r.rank_zero(p) == p - exp
 #[test]
-fn kani_concrete_playback_rs0_n9_len513_7057873021974578029() {
+fn kani_concrete_playback_rs0_n9_len513_2876226639590559036() {
     let concrete_vals: Vec<Vec<u8>> = vec![
-        // 15055334542409676287ul
-        vec![255, 53, 255, 238, 255, 74, 239, 208],
-        // 13906128273801216255ul
-        vec![255, 0, 240, 184, 252, 125, 252, 192],
-        // 13907079341813989375ul
-        vec![255, 255, 254, 127, 250, 222, 255, 192],
-        // 18446648414301121520ul
-        vec![240, 235, 240, 142, 255, 168, 255, 255],
-        // 14858641825257553892ul
-        vec![228, 255, 60, 255, 3, 128, 52, 206],
-        // 148350506815705343ul
-        vec![255, 208, 255, 252, 255, 11, 15, 2],
-        // 1120408056442650400ul
-        vec![32, 255, 191, 239, 48, 125, 140, 15],
-        // 3314641010687ul
-        vec![255, 255, 255, 191, 3, 3, 0, 0],
-        // 18158442929376460799ul
-        vec![255, 255, 175, 255, 162, 191, 255, 251],
-        // 8191ul
-        vec![255, 31, 0, 0, 0, 0, 0, 0],
-    ];
-    kani::concrete_playback_run(concrete_vals, crate::c01::q::rs0_n9_len513);
-}
-
-// failed check (assertion): assertion failed: r.num_ones() == total
-#[test]
-fn kani_concrete_playback_rs0_n9_len513_4975227389396472521() {
-    let concrete_vals: Vec<Vec<u8>> = vec![
-        // 18446744073709551615ul
-        vec![255, 255, 255, 255, 255, 255, 255, 255],
-        // 18446744073709551615ul
-        vec![255, 255, 255, 255, 255, 255, 255, 255],
-        // 18446744073709551615ul
-        vec![255, 255, 255, 255, 255, 255, 255, 255],
-        // 18446744073709551615ul
-        vec![255, 255, 255, 255, 255, 255, 255, 255],
-        // 18446744073709551615ul
-        vec![255, 255, 255, 255, 255, 255, 255, 255],
-        // 18446744073709551615ul
-        vec![255, 255, 255, 255, 255, 255, 255, 255],
-        // 18446744073709551615ul
-        vec![255, 255, 255, 255, 255, 255, 255, 255],
-        // 18446744073709551615ul
-        vec![255, 255, 255, 255, 255, 255, 255, 255],
-        // 18446744073709551615ul
-        vec![255, 255, 255, 255, 255, 255, 255, 255],
-        // 512ul
-        vec![0, 2, 0, 0, 0, 0, 0, 0],
+        // 0ul
+        vec![0, 0, 0, 0, 0, 0, 0, 0],
+        // 0ul
+        vec![0, 0, 0, 0, 0, 0, 0, 0],
+        // 0ul
+        vec![0, 0, 0, 0, 0, 0, 0, 0],
+        // 0ul
+        vec![0, 0, 0, 0, 0, 0, 0, 0],
+        // 0ul
+        vec![0, 0, 0, 0, 0, 0, 0, 0],
+        // 0ul
+        vec![0, 0, 0, 0, 0, 0, 0, 0],
+        // 0ul
+        vec![0, 0, 0, 0, 0, 0, 0, 0],
+        // 0ul
+        vec![0, 0, 0, 0, 0, 0, 0, 0],
+        // 0ul
+        vec![0, 0, 0, 0, 0, 0, 0, 0],
+        // 9223372036854775808ul
+        vec![0, 0, 0, 0, 0, 0, 0, 128],
     ];
     kani::concrete_playback_run(concrete_vals, crate::c01::q::rs0_n9_len513);
 }
